@@ -83,6 +83,11 @@ pub trait Engine: Sync {
     fn real_vs_stub(&self) -> Value;
     fn rule(&self) -> &'static str;
     fn run(&self, ch: &mut Choices, ctx: &RunCtx) -> Outcome;
+    /// Engines that create OS threads per run scale badly inside one process (the kernel
+    /// serialises thread creation per address space): shard their batches over processes.
+    fn shard_over_processes(&self) -> bool {
+        false
+    }
 }
 
 // ---------------------------------------------------------------------------------------------
@@ -181,6 +186,83 @@ fn known_match<'a>(known: &'a [KnownFinding], v: &Violation) -> Option<&'a Known
     })
 }
 
+pub fn intern(s: &str) -> &'static str {
+    use std::collections::BTreeSet;
+    static TABLE: Mutex<BTreeSet<&'static str>> = Mutex::new(BTreeSet::new());
+    let mut t = TABLE.lock().unwrap();
+    if let Some(x) = t.get(s) {
+        return x;
+    }
+    let leaked: &'static str = Box::leak(s.to_string().into_boxed_str());
+    t.insert(leaked);
+    leaked
+}
+
+impl Aggregate {
+    pub fn to_json(&self) -> Value {
+        json!({
+            "evaluations": self.evaluations,
+            "nontrivial": self.nontrivial,
+            "distinct_nontrivial": self.distinct_nontrivial.iter().collect::<Vec<_>>(),
+            "distinct_extra": self.distinct_extra,
+            "distinct_traces": self.distinct_traces.iter().collect::<Vec<_>>(),
+            "states": self.states.iter().collect::<Vec<_>>(),
+            "faults": self.faults,
+            "probes": self.probes,
+            "sim_time_ns": self.sim_time_ns.to_string(),
+            "steps": self.steps,
+            "other": self.other_property_violations,
+            "failures": self.failures.iter().map(|(i, v, r)| json!([i, v.property, v.rule, v.detail, r])).collect::<Vec<_>>(),
+            "harness_errors": self.harness_errors.iter().map(|(i, m)| json!([i, m])).collect::<Vec<_>>(),
+            "samples": self.samples,
+            "stopped_early": self.stopped_early,
+        })
+    }
+
+    pub fn from_json(v: &Value) -> Aggregate {
+        let set = |k: &str| -> BTreeSet<u64> {
+            v[k].as_array().map(|a| a.iter().filter_map(|x| x.as_u64()).collect()).unwrap_or_default()
+        };
+        let map = |k: &str| -> BTreeMap<&'static str, u64> {
+            v[k].as_object()
+                .map(|o| o.iter().map(|(k, v)| (intern(k), v.as_u64().unwrap_or(0))).collect())
+                .unwrap_or_default()
+        };
+        let mut a = Aggregate::default();
+        a.evaluations = v["evaluations"].as_u64().unwrap_or(0);
+        a.nontrivial = v["nontrivial"].as_u64().unwrap_or(0);
+        a.distinct_nontrivial = set("distinct_nontrivial");
+        a.distinct_extra = v["distinct_extra"].as_u64().unwrap_or(0);
+        a.distinct_traces = set("distinct_traces");
+        a.states = set("states");
+        a.faults = map("faults");
+        a.probes = map("probes");
+        a.sim_time_ns = v["sim_time_ns"].as_str().and_then(|s| s.parse().ok()).unwrap_or(0);
+        a.steps = v["steps"].as_u64().unwrap_or(0);
+        a.other_property_violations = v["other"]
+            .as_object()
+            .map(|o| o.iter().map(|(k, v)| (k.clone(), v.as_u64().unwrap_or(0))).collect())
+            .unwrap_or_default();
+        for f in v["failures"].as_array().cloned().unwrap_or_default() {
+            a.failures.push((
+                f[0].as_u64().unwrap_or(0),
+                Violation {
+                    property: intern(f[1].as_str().unwrap_or("")),
+                    rule: intern(f[2].as_str().unwrap_or("")),
+                    detail: f[3].as_str().unwrap_or("").to_string(),
+                },
+                f[4].as_array().map(|r| r.iter().map(|x| x.as_u64().unwrap_or(0) as u32).collect()).unwrap_or_default(),
+            ));
+        }
+        for h in v["harness_errors"].as_array().cloned().unwrap_or_default() {
+            a.harness_errors.push((h[0].as_u64().unwrap_or(0), h[1].as_str().unwrap_or("").to_string()));
+        }
+        a.samples = v["samples"].as_array().cloned().unwrap_or_default();
+        a.stopped_early = v["stopped_early"].as_bool().unwrap_or(false);
+        a
+    }
+}
+
 // ---------------------------------------------------------------------------------------------
 // Batch runner
 
@@ -194,6 +276,8 @@ pub struct BatchCfg {
     pub verif_dir: PathBuf,
     /// Label mixed into run seeds, so several engines of one check draw different streams.
     pub label: String,
+    /// Only run indices `i` with `i % shard.1 == shard.0`.
+    pub shard: (u64, u64),
 }
 
 #[derive(Default)]
@@ -277,7 +361,58 @@ pub fn run_seed(cfg: &BatchCfg, idx: u64) -> u64 {
     mix(cfg.seed, &format!("{}/{}", cfg.property, cfg.label), idx)
 }
 
+/// Run a batch, in this process or (for engines that ask for it) sharded over worker processes.
 pub fn run_batch(engine: &dyn Engine, cfg: &BatchCfg) -> Aggregate {
+    if engine.shard_over_processes() && cfg.shard.1 == 1 && cfg.threads > 1 && cfg.runs >= 64 {
+        return run_batch_sharded(engine, cfg);
+    }
+    run_batch_local(engine, cfg)
+}
+
+fn run_batch_sharded(engine: &dyn Engine, cfg: &BatchCfg) -> Aggregate {
+    let start = Instant::now();
+    let exe = std::env::current_exe().expect("current exe");
+    let n = cfg.threads as u64;
+    let mut children = Vec::new();
+    for k in 0..n {
+        let child = std::process::Command::new(&exe)
+            .arg("worker")
+            .arg(engine.name())
+            .arg(cfg.property)
+            .arg(if cfg.thorough { "thorough" } else { "quick" })
+            .arg(cfg.seed.to_string())
+            .arg(cfg.runs.to_string())
+            .arg(format!("{k}/{n}"))
+            .arg(cfg.max_wall_s.to_string())
+            .env("VERIF_DIR", &cfg.verif_dir)
+            .stdout(std::process::Stdio::piped())
+            .stderr(std::process::Stdio::inherit())
+            .spawn()
+            .expect("spawn worker process");
+        children.push(child);
+    }
+    let mut total = Aggregate::default();
+    for (k, child) in children.into_iter().enumerate() {
+        let out = child.wait_with_output().expect("worker output");
+        let text = String::from_utf8_lossy(&out.stdout);
+        match text.lines().rev().find(|l| l.starts_with('{')).and_then(|l| serde_json::from_str::<Value>(l).ok()) {
+            Some(v) => {
+                let a = Aggregate::from_json(&v);
+                let stopped = a.stopped_early;
+                total.merge(a);
+                total.stopped_early |= stopped;
+            }
+            None => total.harness_errors.push((k as u64, format!("worker process {k} produced no result (status {:?})", out.status))),
+        }
+    }
+    total.failures.sort_by(|a, b| a.0.cmp(&b.0));
+    total.harness_errors.sort();
+    total.samples.sort_by_key(|s| s["run"].as_u64());
+    total.wall_s = start.elapsed().as_secs_f64();
+    total
+}
+
+pub fn run_batch_local(engine: &dyn Engine, cfg: &BatchCfg) -> Aggregate {
     install_panic_hook();
     let next = AtomicU64::new(0);
     let stop = AtomicBool::new(false);
@@ -294,11 +429,11 @@ pub fn run_batch(engine: &dyn Engine, cfg: &BatchCfg) -> Aggregate {
                     if stop.load(Ordering::Relaxed) {
                         break;
                     }
-                    let idx = next.fetch_add(1, Ordering::Relaxed);
+                    let idx = next.fetch_add(1, Ordering::Relaxed) * cfg.shard.1 + cfg.shard.0;
                     if idx >= cfg.runs {
                         break;
                     }
-                    if idx % 64 == 0 && start.elapsed().as_secs_f64() > cfg.max_wall_s {
+                    if (idx / cfg.shard.1) % 64 == 0 && start.elapsed().as_secs_f64() > cfg.max_wall_s {
                         stop.store(true, Ordering::Relaxed);
                         agg.stopped_early = true;
                         break;
